@@ -72,7 +72,7 @@ FmtCls(ty, v, o) ==
   ty \o "/" \o (CASE ty \in {"PlainDate", "PlainDateTime", "PlainYearMonth"} -> YearBucket(v.y) \o (IF v.cal = "iso8601" THEN "" ELSE ",non-iso")
                   [] ty = "PlainMonthDay" -> IF v.cal = "iso8601" THEN "iso" ELSE "non-iso"
                   [] ty = "Duration" -> DurShape(v)
-                  [] ty = "ZonedDateTime" -> (IF ZoneMinutes(v.tz) % 60 # 0 THEN "offset-minutes" ELSE "offset-hours") \o (IF v.cal = "iso8601" THEN "" ELSE ",non-iso")
+                  [] ty = "ZonedDateTime" -> (IF ~(Ch(v.tz, 1) \in {"+", "-"} \/ v.tz = Chars("UTC")) THEN "named-zone" ELSE IF ZoneMinutes(v.tz) % 60 # 0 THEN "offset-minutes" ELSE "offset-hours") \o (IF v.cal = "iso8601" THEN "" ELSE ",non-iso")
                   [] ty = "Instant" -> (IF v.s = -1 THEN "before-epoch" ELSE "epoch-or-later") \o (IF FloorBig(v, EffPrec(o.p, o.su)) = v THEN "" ELSE ",truncating")
                   [] OTHER -> "any")
      \o "/" \o (IF ty = "Instant" /\ FloorBig(v, EffPrec(o.p, o.su)) # v THEN "p<9" \o (IF o.tz # <<>> THEN ",zone" ELSE "") ELSE OptTag(ty, o))
